@@ -14,7 +14,23 @@ import Mathlib.Tactic.FieldSimp
 # Helper lemmas about `Ds.Util` (element-wise utilities, `JointUtility`), the batching glue of
 `Ds.Neighbor.score`, and label renaming
 
-* batching: `impCols`, `cols_unzip`, `impCols_getD`, `batch_term`, `batch_sum`, `batch_foldl_getD`.
+* batching (C07): `impCols`, `cols_unzip`, `impCols_getD`, `batch_term`, `batch_sum`, `batchStep`,
+  `batch_foldl_getD`, `batch_foldl`.
+* accuracy utility (C14a/b): `range_map_zip`, `accElem_getD`, `accElem_pred`, `acc_select_eq`,
+  `accuracy_const`, `argStep`, `accNullElem_eq_fold`, `argFold_spec` (the fold keeps the FIRST minimum),
+  `foldl_min_le/mem/eq`.
+* ROC-AUC utility (C14c/d): `count_add`, `aucCell`, `aucElem_eq`, `aucCell_perm`, `aucCell_binary`,
+  `aucRow`, `aucElem_binary`, `auc_select_eq`, `auc_sum_eq`, `nodup_eraseDups`, `mem_unique`,
+  `nodup_unique`, `unique_perm_pair`, `aucNullElem_eq`, `leastFrequent_mem`, `aucRow_sum`,
+  `aucNullElem_binary`.
+* `JointUtility` (C08): `jointScalar_cons/eq_sum/smul/lin/add/smul_left`, `jointElem_getD`,
+  `jointCall_some/none`, `colsOf`, `combTable`, `combVec`, `jointElem_eq_combTable`,
+  `colsOf_combTable_cons`, `importances_zero`, `importances_comb` (kernel linearity for any number of
+  components, by induction from `Ds.Kernel.importances_lin`), `combVec_pair`.
+* label renaming (C18): `beq_map_inj`, `eraseDups_map_inj`, `unique_map`, `idxOf_map_inj`, `encode_map`,
+  `mapM_encode_map`, `accElem_map`, `accNullElem_map`, `accuracy_map`, `accNull_map`, `accElem_row`.
+* fit/score state machine (C20, namespace `Ds.Session`): `lastFit`, `scoreOut`, `step_score_fst/out`,
+  `run_append`, `run_length`, `run_scores`, `run_state`, `lastFit_none_iff`, `lastFit_append_fit`.
 -/
 
 open Finset
@@ -800,4 +816,205 @@ theorem combVec_pair (n : ℕ) (w₁ w₂ : ℚ) (v₁ v₂ : List ℚ) (h₁ : 
     simp [combVec, jointScalar_cons, jointScalar_nil_left, List.getD_eq_getElem?_getD,
       List.getElem?_eq_getElem h3, List.getElem?_eq_getElem h4]
 
+/-! ### C18: renaming the labels -/
+
+theorem beq_map_inj (ρ : Int → Int) (hρ : Function.Injective ρ) (a b : Int) : (ρ a == ρ b) = (a == b) := by
+  rw [Bool.eq_iff_iff]
+  simp [hρ.eq_iff]
+
+theorem eraseDups_map_inj (ρ : Int → Int) (hρ : Function.Injective ρ) (l : List Int) :
+    (l.map ρ).eraseDups = l.eraseDups.map ρ := by
+  induction h : l.length using Nat.strong_induction_on generalizing l with
+  | _ n ih =>
+    cases l with
+    | nil => rfl
+    | cons a as =>
+      rw [List.map_cons, List.eraseDups_cons, List.eraseDups_cons, List.map_cons, List.filter_map]
+      have hf : ((fun b => !b == ρ a) ∘ ρ) = (fun b => !b == a) := by
+        funext b
+        simp only [Function.comp, beq_map_inj ρ hρ]
+      rw [hf, ih (as.filter (fun b => !b == a)).length _ _ rfl]
+      rw [← h, List.length_cons]
+      exact Nat.lt_succ_of_le (List.length_filter_le _ _)
+
+/-- an order-preserving renaming commutes with `np.unique` -/
+theorem unique_map (ρ : Int → Int) (hρ : StrictMono ρ) (ys : List Int) :
+    unique (ys.map ρ) = (unique ys).map ρ := by
+  unfold unique
+  rw [← eraseDups_map_inj ρ hρ.injective]
+  congr 1
+  symm
+  apply List.map_mergeSort
+  intro a _ b _
+  simp only [decide_eq_decide]
+  exact hρ.le_iff_le.symm
+
+theorem idxOf_map_inj (ρ : Int → Int) (hρ : Function.Injective ρ) (cs : List Int) (y : Int) :
+    (cs.map ρ).idxOf (ρ y) = cs.idxOf y := by
+  induction cs with
+  | nil => rfl
+  | cons c cs ih =>
+    rw [List.map_cons, List.idxOf_cons, List.idxOf_cons, ih, beq_map_inj ρ hρ]
+
+theorem contains_map_inj (ρ : Int → Int) (hρ : Function.Injective ρ) (cs : List Int) (y : Int) :
+    (cs.map ρ).contains (ρ y) = cs.contains y := by
+  rw [Bool.eq_iff_iff]
+  simp only [List.contains_iff_mem, List.mem_map]
+  constructor
+  · rintro ⟨x, hx, e⟩; exact hρ e ▸ hx
+  · intro h; exact ⟨y, h, rfl⟩
+
+/-- `LabelEncoder.transform` gives the same codes after an injective renaming of labels and classes -/
+theorem encode_map (ρ : Int → Int) (hρ : Function.Injective ρ) (cs : List Int) (y : Int) :
+    encode (cs.map ρ) (ρ y) = encode cs y := by
+  unfold encode
+  rw [contains_map_inj ρ hρ, idxOf_map_inj ρ hρ]
+
+theorem mapM_encode_map (ρ : Int → Int) (hρ : Function.Injective ρ) (cs ys : List Int) :
+    (ys.map ρ).mapM (encode (cs.map ρ)) = ys.mapM (encode cs) := by
+  rw [List.mapM_map]
+  congr 1
+  funext y
+  exact encode_map ρ hρ cs y
+
+theorem ind_beq_map (ρ : Int → Int) (hρ : Function.Injective ρ) (a b : Int) : ind (ρ a == ρ b) = ind (a == b) := by
+  rw [beq_map_inj ρ hρ]
+
+theorem accElem_map (ρ : Int → Int) (hρ : Function.Injective ρ) (cs ys : List Int) :
+    accElem (cs.map ρ) (ys.map ρ) = accElem cs ys := by
+  unfold accElem
+  simp only [List.map_map, Function.comp_def, ind_beq_map ρ hρ]
+
+theorem accNullElem_map (ρ : Int → Int) (hρ : Function.Injective ρ) (cs ys : List Int) :
+    accNullElem (cs.map ρ) (ys.map ρ) = accNullElem cs ys := by
+  unfold accNullElem
+  simp only [List.foldl_map, List.map_map, Function.comp_def, ind_beq_map ρ hρ]
+
+theorem accuracy_map (ρ : Int → Int) (hρ : Function.Injective ρ) (ys ps : List Int) :
+    accuracy (ys.map ρ) (ps.map ρ) = accuracy ys ps := by
+  unfold accuracy
+  rw [List.zip_map, List.map_map]
+  simp only [Function.comp_def, Prod.map_fst, Prod.map_snd, ind_beq_map ρ hρ]
+
+theorem accNull_map (ρ : Int → Int) (hρ : Function.Injective ρ) (cs ys : List Int) :
+    accNull (cs.map ρ) (ys.map ρ) = accNull cs ys := by
+  unfold accNull
+  have : (cs.map ρ).map (fun x => accuracy (ys.map ρ) ((ys.map ρ).map (fun _ => x)))
+      = cs.map (fun x => accuracy ys (ys.map (fun _ => x))) := by
+    rw [List.map_map]
+    apply List.map_congr_left
+    intro x _
+    simp only [Function.comp]
+    have : (ys.map ρ).map (fun _ => ρ x) = (ys.map (fun _ => x)).map ρ := by
+      rw [List.map_map, List.map_map]; rfl
+    rw [this, accuracy_map ρ hρ]
+  rw [this]
+
+/-- the row of the accuracy table selected by the code of label `p` is the indicator of `p` -/
+theorem accElem_row (cs yT : List Int) (p : Int) (hp : p ∈ cs) :
+    (accElem cs yT).getD (cs.idxOf p) [] = yT.map (fun t => ind (p == t)) := by
+  have h := List.idxOf_lt_length_iff.mpr hp
+  simp [accElem, List.getD_eq_getElem?_getD, List.getElem?_eq_getElem h]
+
 end Ds.Util
+
+namespace Ds.Session
+
+/-! ### C20: the fit/score state machine -/
+
+variable {Data Arg Out : Type}
+
+/-- the data of the last `fit` in a history, if any -/
+def lastFit : List (Op Data Arg) → Option Data
+  | [] => none
+  | .fit d :: ops => (match lastFit ops with | some d' => some d' | none => some d)
+  | .score _ :: ops => lastFit ops
+
+/-- what a `score a` call returns in a state whose fitted data is `o` -/
+def scoreOut (f : Data → Arg → Out) (o : Option Data) (a : Arg) : Option (Except Err Out) :=
+  match o with
+  | none => some (.error Err.valueError)
+  | some d => some (.ok (f d a))
+
+theorem step_score_fst (f : Data → Arg → Out) (s : State Data) (a : Arg) :
+    (step f s (.score a)).1 = s := by
+  unfold step
+  cases s.fitted <;> rfl
+
+/-- the value returned by `score` -/
+theorem step_score_out (f : Data → Arg → Out) (s : State Data) (a : Arg) :
+    (step f s (.score a)).2 = scoreOut f s.fitted a := by
+  unfold step scoreOut
+  cases s.fitted <;> rfl
+
+theorem run_append (f : Data → Arg → Out) (s : State Data) (ops₁ ops₂ : List (Op Data Arg)) :
+    run f s (ops₁ ++ ops₂)
+      = ((run f (run f s ops₁).1 ops₂).1, (run f s ops₁).2 ++ (run f (run f s ops₁).1 ops₂).2) := by
+  induction ops₁ generalizing s with
+  | nil => rfl
+  | cons op ops ih => simp only [List.cons_append, run, ih]
+
+theorem run_length (f : Data → Arg → Out) (s : State Data) (ops : List (Op Data Arg)) :
+    (run f s ops).2.length = ops.length := by
+  induction ops generalizing s with
+  | nil => rfl
+  | cons op ops ih => simp [run, ih]
+
+/-- `run` over score calls only: state unchanged, outputs are the individual scores -/
+theorem run_scores (f : Data → Arg → Out) (s : State Data) (as : List Arg) :
+    run f s (as.map Op.score) = (s, as.map (scoreOut f s.fitted)) := by
+  induction as with
+  | nil => rfl
+  | cons a as ih =>
+    simp only [List.map_cons, run, step_score_fst, ih, step_score_out]
+
+theorem run_state (f : Data → Arg → Out) (s : State Data) (ops : List (Op Data Arg)) :
+    (run f s ops).1.fitted = ((lastFit ops).orElse fun _ => s.fitted) := by
+  induction ops generalizing s with
+  | nil => rfl
+  | cons op ops ih =>
+    cases op with
+    | fit d =>
+      simp only [run, step, ih, lastFit]
+      cases lastFit ops <;> rfl
+    | score a =>
+      simp only [run, ih, step_score_fst, lastFit]
+
+theorem lastFit_none_iff (ops : List (Op Data Arg)) :
+    lastFit ops = none ↔ ∀ d, Op.fit d ∉ ops := by
+  induction ops with
+  | nil => simp [lastFit]
+  | cons op ops ih =>
+    cases op with
+    | fit d =>
+      simp only [lastFit, List.mem_cons, not_or]
+      constructor
+      · intro h; cases hl : lastFit ops <;> simp [hl] at h
+      · intro h; exact absurd rfl (h d).1
+    | score a =>
+      simp only [lastFit, ih, List.mem_cons, not_or]
+      constructor
+      · intro h d
+        refine ⟨?_, h d⟩
+        intro h'
+        cases h'
+      · intro h d; exact (h d).2
+
+theorem lastFit_append_fit (ops₁ ops₂ : List (Op Data Arg)) (d : Data) (h : ∀ d', Op.fit d' ∉ ops₂) :
+    lastFit (ops₁ ++ .fit d :: ops₂) = some d := by
+  have h2 := (lastFit_none_iff ops₂).mpr h
+  induction ops₁ with
+  | nil => simp [lastFit, h2]
+  | cons op ops ih =>
+    cases op with
+    | fit d' => simp [lastFit, ih]
+    | score a => simpa [lastFit] using ih
+
+theorem drop_append_singleton {β : Type} (A : List β) (n : ℕ) (x : β) (M : List β) (h : A.length = n) :
+    (A ++ [x] ++ M).drop (n + 1) = M := by
+  subst h
+  induction A with
+  | nil => rfl
+  | cons y A ih => simp
+
+end Ds.Session
